@@ -143,7 +143,7 @@ impl Formatter {
             }
             ImportKind::Python(name) => {
                 self.writer.write("import python \"");
-                self.writer.write(name);
+                self.writer.write(&escape_string(name));
                 self.writer.write("\"");
                 if let Some(alias) = &import.alias {
                     self.writer.write(" as ");
